@@ -104,7 +104,7 @@ fn fits(e: &Exp, width: usize) -> bool {
     }
 }
 
-fn check_cell(name: &str, width: usize, align: Align, cell: &str, e: &Exp) -> Result<(), String> {
+fn check_cell(name: &str, width: usize, align: Align, cell: &str, e: &Exp, slow: bool) -> Result<(), String> {
     let t = cell.trim();
     match e {
         Exp::Blank => {
@@ -113,10 +113,13 @@ fn check_cell(name: &str, width: usize, align: Align, cell: &str, e: &Exp) -> Re
             }
         }
         Exp::Lc => {
-            if t != "0" && t != "1" {
-                return Err(format!("column LC shows {:?} for a row touched just now", cell));
+            // the row was last heard 0.6 s before printing: 0 whole seconds (a slow run may legitimately show more)
+            let ok = if slow { matches!(t, "0" | "1" | "2" | "3") } else { t == "0" };
+            if !ok {
+                return Err(format!("column LC shows {:?} for a row heard 0.6 s ago", cell));
             }
         }
+        Exp::Text(_) if name == "PTH" && slow => {}
         Exp::Text(s) => {
             let shown = if name == "PTH" { cell.trim_end().to_string() } else { t.to_string() };
             let want = if name == "PTH" { s.trim_end().to_string() } else { s.clone() };
@@ -170,9 +173,11 @@ pub fn check_rows(flags: &str, rows_in: &[RowSpec]) -> Result<(), String> {
         return Err(format!("-i {:?}: separator is {:?}, the column specification gives {:?}", flags, lh.separator, ss));
     }
     let t = run::new_table();
+    let t0 = std::time::Instant::now();
     rows::inject(&t, rows_in);
     let o = Opts { i: vec![flags.to_string()], ..Opts::default() };
     let printed = render::print_table(&t, &o);
+    let slow = t0.elapsed().as_millis() > 250;
     if printed.len() != rows_in.len() {
         return Err(format!("{} rows in the table, {} lines printed", rows_in.len(), printed.len()));
     }
@@ -195,20 +200,28 @@ pub fn check_rows(flags: &str, rows_in: &[RowSpec]) -> Result<(), String> {
             return Err(format!("-i {:?}: row {:?} is shorter than its columns", flags, line));
         };
         for c in &cols {
-            check_cell(c.name, c.width, c.align, &cells[c.name], &expected(c.name, r)).map_err(|m| format!("-i {:?}, row {:?}: {}", flags, line, m))?;
+            check_cell(c.name, c.width, c.align, &cells[c.name], &expected(c.name, r), slow).map_err(|m| format!("-i {:?}, row {:?}: {}", flags, line, m))?;
         }
     }
     Ok(())
 }
 
 fn flags_strategy() -> BoxedStrategy<String> {
-    (0u32..32, "[xzq1B]{0,2}").prop_map(|(m, noise)| {
+    // letters may be repeated and come in any order (several -i values are concatenated by the program)
+    (0u32..32, "[xzq1B]{0,2}", proptest::collection::vec(0usize..5, 0..4), any::<bool>()).prop_map(|(m, noise, repeats, rev)| {
         let mut s = String::new();
         for (i, ch) in "aAews".chars().enumerate() {
             if m & (1 << i) != 0 {
                 s.push(ch);
             }
         }
+        let present: Vec<char> = s.chars().collect();
+        for r in repeats {
+            if !present.is_empty() {
+                s.push(present[r % present.len()]);
+            }
+        }
+        let s = if rev { s.chars().rev().collect::<String>() } else { s };
         format!("{}{}", s, noise)
     }).boxed()
 }
@@ -221,9 +234,14 @@ fn filled_ratio(r: &RowSpec, g: &str) -> (usize, usize) {
 
 /// (b) structure of every refresh printed by the reader
 fn check_stream(flags: &str, lines: &[String], via_cli: bool, count: bool) -> Result<u64, String> {
+    check_stream_d(flags, lines, via_cli, count, 1_000_000)
+}
+
+/// with delete_after 0 the table is emptied by every sweep: rows come and go, the structure of a refresh must hold
+fn check_stream_d(flags: &str, lines: &[String], via_cli: bool, count: bool, d: i64) -> Result<u64, String> {
     let g = groups_of(flags);
     let (sh, ss) = render::spec_header(&g);
-    let o = Opts { i: vec![if flags.is_empty() { "x".to_string() } else { flags.to_string() }], upd: -1, c: count, ..Opts::default() };
+    let o = Opts { i: vec![if flags.is_empty() { "x".to_string() } else { flags.to_string() }], upd: -1, c: count, d, ..Opts::default() };
     let out = if via_cli {
         let p = run::tmp_dir().join(format!("c14-{}.txt", std::process::id()));
         std::fs::write(&p, lines.join("\n") + "\n").map_err(|e| e.to_string())?;
@@ -252,6 +270,13 @@ fn check_stream(flags: &str, lines: &[String], via_cli: bool, count: bool) -> Re
         let mut sorted = ids.clone();
         sorted.sort();
         sorted.dedup();
+        if d == 0 {
+            // rows expire at every sweep: each printed line must still be a row of an aircraft heard so far, each once
+            if sorted.len() != ids.len() || !ids.iter().all(|x| seen.contains(x)) || r.rows.iter().any(|x| x.trim().is_empty()) {
+                return Err(format!("refresh {} with delete_after 0: lines between the separators are {:?} (aircraft heard so far {:?})", k, r.rows, seen));
+            }
+            continue;
+        }
         if sorted.len() != ids.len() || sorted.iter().cloned().collect::<std::collections::BTreeSet<_>>() != seen {
             return Err(format!("refresh {}: rows {:?} but the table holds {:?}", k, ids, seen));
         }
@@ -332,7 +357,8 @@ fn run(c: &mut Ctx) {
     let strat = (flags_strategy(), proptest::collection::vec((0usize..4).prop_flat_map(|a| alphabet::frame_any(gen::POOL[a])), 1..25), prop::bool::weighted(0.05), any::<bool>());
     let r = c.proptest(cases, strat, |c, (flags, frames, via_cli, count), counting| {
         let lines: Vec<String> = frames.iter().map(|f| f.hex()).collect();
-        match check_stream(flags, &lines, *via_cli, *count) {
+        let d = if lines.len() % 4 == 3 { 0 } else { 1_000_000 };
+        match check_stream_d(flags, &lines, *via_cli, *count, d) {
             Ok(n) => {
                 if counting {
                     c.eval(n);
@@ -348,7 +374,8 @@ fn run(c: &mut Ctx) {
         }
     });
     if let Some(((flags, frames, via_cli, count), m)) = r {
-        c.fail(m, "c14:refresh", json!({"kind":"stream","flags":flags,"lines":frames.iter().map(|f| f.hex()).collect::<Vec<_>>(),"cli":via_cli,"count":count}));
+        let d = if frames.len() % 4 == 3 { 0 } else { 1_000_000 };
+        c.fail(m, "c14:refresh", json!({"kind":"stream","flags":flags,"lines":frames.iter().map(|f| f.hex()).collect::<Vec<_>>(),"cli":via_cli,"count":count,"d":d}));
     }
 }
 
@@ -358,7 +385,7 @@ fn replay(c: &mut Ctx, case: &Value) {
     match case["kind"].as_str() {
         Some("stream") => {
             let lines: Vec<String> = serde_json::from_value(case["lines"].clone()).unwrap_or_default();
-            if let Err(m) = check_stream(&flags, &lines, case["cli"].as_bool().unwrap_or(false), case["count"].as_bool().unwrap_or(false)) {
+            if let Err(m) = check_stream_d(&flags, &lines, case["cli"].as_bool().unwrap_or(false), case["count"].as_bool().unwrap_or(false), case["d"].as_i64().unwrap_or(1_000_000)) {
                 if m != "TIMEOUT" {
                     c.fail(m, "c14:refresh", case.clone());
                 }
